@@ -111,12 +111,17 @@ Relevant(c) == c.members = 2 => c.upenc = "gzip"
    configuration compresses: no response may be compressed (a response is decided under one configuration, not a mixture) *)
 StormCase == [storm |-> TRUE, requests |-> 4000]
 
+(* and one where the origin announces a cacheable body and breaks the connection half way (location with a proxy timeout):
+   the client must not receive a complete-looking answer with half the body, and the half is not stored: the next client
+   gets the whole body from a new fetch *)
+CutCase == [cut |-> TRUE]
+
 VARIABLE l
 
 EmitInit ==
   /\ l = 0
   /\ LET Q == SetToSeq({c \in Cells : Relevant(c)})
-     IN ndJsonSerialize(IOEnv.OUT, [i \in 1..Len(Q) |-> Q[i] @@ [expected |-> SetToSeq(Expected(Q[i]))]] \o <<StormCase>>)
+     IN ndJsonSerialize(IOEnv.OUT, [i \in 1..Len(Q) |-> Q[i] @@ [expected |-> SetToSeq(Expected(Q[i]))]] \o <<StormCase, CutCase>>)
 EmitNext == FALSE /\ l' = l
 
 Obs == ndJsonDeserialize(IOEnv.OBS)
@@ -129,6 +134,7 @@ Best(op) == (op.enc = "gzip" /\ op.level = 9) \/ (op.enc = "br" /\ op.level = -1
 OkC05(o) ==
   LET c == o.case IN
   /\ o.bodyOk                                          \* decoded bytes are the upstream's
+  /\ o.concOk                                          \* ... also when many such responses cross pike at the same time
   /\ o.lenOk                                           \* Content-Length matches the bytes sent
   /\ o.status = c.status
   /\ o.headersOk                                       \* end-to-end headers preserved (multi-valued, non-ASCII UTF-8)
@@ -156,6 +162,8 @@ OkC13(o) ==
         /\ Len(o.storeOps) = (IF EffUp(c) \in {"gzip", "br"} THEN 1 ELSE 2)
 
 Ok(o) == IF "storm" \in DOMAIN o.case THEN (o.asked > 0 /\ o.compressed = 0)
+         ELSE IF "cut" \in DOMAIN o.case THEN /\ (o.firstComplete => o.firstFull)
+                                               /\ o.secondLabel # "hit" /\ o.secondStatus = 200 /\ o.secondFull
          ELSE IF IOEnv.PROP = "C13" THEN OkC13(o) ELSE OkC05(o)
 
 CheckInit == l = 0
